@@ -90,11 +90,14 @@ def task_const_rename(t):
             continue
         u = refs[fu]
         sup = U.support(fu)
-        for d in pas:
+        for d in [{}] + pas:
             want = U.restrict(fu, d)
             case = dict(task=t[:-1] + (fu,), u=U.fmt(fu), d=d)
             try:
-                for how, r in (('let', m.let(dict(d), u)), ('cofactor', m.cofactor(u, dict(d)))):
+                for how, r in (('let', m.let(dict(d), u)), ('cofactor', m.cofactor(u, dict(d))),
+                               ('rename', m.rename(u, {}) if not d else None)):
+                    if r is None:
+                        continue
                     rep.add('evaluations')
                     if val(r) != want:
                         rec('const:' + how, '%s with constants denotes the wrong function' % how,
